@@ -88,6 +88,8 @@ class _Rewriter(ast.NodeTransformer):
         f = node.func
         if isinstance(f, ast.Name) and f.id == 'str' and len(node.args) == 1 and not node.keywords:
             return ast.Call(ast.Name('__symstr__', ast.Load()), node.args, [])
+        if isinstance(f, ast.Name) and f.id == 'dict' and len(node.args) == 1:
+            return ast.Call(ast.Name('__symdict__', ast.Load()), node.args, node.keywords)
         if (isinstance(f, ast.Attribute) and f.attr == 'format'
                 and isinstance(f.value, ast.Constant) and isinstance(f.value.value, str)):
             return ast.Call(ast.Name('__symformat__', ast.Load()), [f.value] + node.args,
@@ -121,6 +123,18 @@ class _Rewriter(ast.NodeTransformer):
 
 
 _loaded = {}
+
+
+def _mapping_dict(*a, **k):
+    """builtin dict(); CrossHair's replacement does not know the `keys()` protocol of
+    mapping-like objects such as darr.MetaData."""
+    if len(a) == 1 and not isinstance(a[0], dict) and hasattr(a[0], 'keys'):
+        out = {}
+        for key in a[0].keys():
+            out[key] = a[0][key]
+        out.update(k)
+        return out
+    return dict(*a, **k)
 
 
 def source_digest():
@@ -180,6 +194,7 @@ def load(env=True, stub_readme=True, pkg=None):
             mod.__dict__['__symfmt__'] = holes.symfmt
             mod.__dict__['__symstr__'] = holes.symstr
             mod.__dict__['__symformat__'] = holes.symformat
+            mod.__dict__['__symdict__'] = _mapping_dict
         exec(code, mod.__dict__)
     if env:
         # pure layout: textwrap on text with placeholders is applied identically on both
